@@ -468,6 +468,35 @@ def hNodeHash (inp out : Json) : Except String Findings := do
   let fs := diff fs "resHash(a)" a.resHash ha
   return fs
 
+/-! ### selectNodes -/
+def hSelectNodes (inp out : Json) : Except String Findings := do
+  let d : EDS ← get inp "eds"
+  let rs : ERS ← get inp "ers"
+  let current : List String ← get inp "current"
+  let nodes : List Node ← get inp "nodes"
+  let pods : List Pod ← get inp "pods"
+  let pn : Bool ← get out "panic"
+  let err : Bool ← get out "err"
+  let res : List String ← get out "nodes"
+  let fs : Findings := #[]
+  let fs := diff fs "panic" pn false
+  match d.strategy.canary with
+  | none => return fs
+  | some c =>
+    match selectNodes rs.template c d.status.desired current pods nodes with
+    | .panic => return diff fs "kind" "ok" "panic"
+    | .err _ => return diff fs "err(replicas)" err true
+    | .ok (m, short) =>
+      let fs := diff fs "nodes" res m
+      let fs := diff fs "err" err short
+      let t := rs.template
+      let fs := spec fs "C15.distinct" (Spec.C15.distinct current res)
+      let fs := spec fs "C15.new-valid" (Spec.C15.newValid t c nodes current res)
+      let fs := spec fs "C15.keep" (Spec.C15.keep t c nodes current res)
+      let fs := spec fs "C15.count" (Spec.C15.count c d.status.desired current res err)
+      let fs := spec fs "C15.all-valid" (err || Spec.C15.allValid t c nodes res)
+      return fs
+
 def handlers : List (String × (Json → Json → Except String Findings)) := [
   ("limits", hLimits),
   ("max_creation", hMaxCreation),
@@ -481,7 +510,8 @@ def handlers : List (String × (Json → Json → Except String Findings)) := [
   ("fitness", hFitness),
   ("filter", hFilter),
   ("create_pod", hCreatePod),
-  ("node_hash", hNodeHash)
+  ("node_hash", hNodeHash),
+  ("select_nodes", hSelectNodes)
 ]
 
 def handleLine (line : String) : String :=
